@@ -155,6 +155,7 @@ def Mon.observe (m : Mon) (ws : List String) (fields : List (String × String)) 
     | none => fails0
   let fails0 := match fields.lookup "log" with
     | some "leak" => fails0 ++ [("C03", "a debug log line written during the operation contains plaintext key material or the payload")]
+    | some "nonce-reuse" => fails0 ++ [("C03", "an AEAD (key, nonce) pair was used for two encryptions (the nonce source repeats)")]
     | _ => fails0
   let (m, fails0) := match sec with
     | [_, _, _, multi, aac] =>
